@@ -455,6 +455,19 @@ fn crate_routines<D: Subject<f64> + Copy>(ctx: &mut Ctx, d: Dims, mats: &[(Vec<V
                 continue;
             }
         };
+        if *class == "repeated-diagonal" {
+            // repeated eigenvalues: the derivative parts of the eigenvectors are not defined, the real
+            // part is - it must be finite, ascending and satisfy A V = V diag(lambda)
+            ctx.st.evaluations += 1;
+            let lr: Vec<f64> = (0..n).map(|i| lam[i].re()).collect();
+            let vr: Vec<Vec<f64>> = (0..n).map(|i| (0..n).map(|j| v[(i, j)].re()).collect()).collect();
+            let finite = lr.iter().all(|x| x.is_finite()) && vr.iter().all(|r| r.iter().all(|x| x.is_finite()));
+            let resid = (0..n).map(|i| (0..n).map(|j| ((0..n).map(|k| a_re[i][k] * vr[k][j]).sum::<f64>() - vr[i][j] * lr[j]).abs()).fold(0.0, f64::max)).fold(0.0, f64::max);
+            if !finite || !(resid <= 1e-12 * norm_inf(a_re).max(1.0)) || lr.windows(2).any(|w| w[1] < w[0]) {
+                ctx.flag("jacobi_eigenvalue", &tn, n, class, format!("real part: eigenvalues {lr:?}, residual of A V = V diag(lambda) {resid:e}"), a_re);
+            }
+            continue;
+        }
         let vj: Vec<Vec<J>> = (0..n).map(|i| (0..n).map(|j| to_j(d, l, &v[(i, j)])).collect()).collect();
         let lj: Vec<Vec<J>> = (0..n).map(|i| (0..n).map(|j| if i == j { to_j(d, l, &lam[i]) } else { jz(l) }).collect()).collect();
         let amp = 1.0 + norm_inf(a_re).max(1.0) / if n > 1 { gap } else { 1.0 };
@@ -573,7 +586,7 @@ fn nalgebra_routines<D: Subject<f64> + nalgebra::RealField>(ctx: &mut Ctx, d: Di
         // negligible off-diagonal real parts are, for nalgebra's SymmetricEigen, zero ones: the
         // deflation on real parts recorded as a known finding (not num-dual code); the class is
         // there for the crate's own routine
-        if *class == "tiny-offdiagonal" {
+        if *class == "tiny-offdiagonal" || *class == "repeated-diagonal" {
             continue;
         }
         let n = a_re.len();
@@ -749,6 +762,12 @@ fn matrix_sets(mode: Mode) -> (Vec<(Vec<Vec<f64>>, &'static str)>, Vec<(Vec<Vec<
             }
         }
     }
+    // diagonal real parts with repeated entries (no rotation is needed; a sweep forced on them divides
+    // 0 by 0)
+    for dv in [vec![1.0, 1.0], vec![2.0, 5.0, 2.0], vec![1.0, 1.0, 1.0], vec![2.0, 5.0, 2.0, 7.0]] {
+        let n = dv.len();
+        eig.push(((0..n).map(|i| (0..n).map(|j| if i == j { dv[i] } else { 0.0 }).collect()).collect(), "repeated-diagonal"));
+    }
     // the same matrices scaled by powers of two (real and derivative parts): conditioning, and
     // therefore singularity, does not depend on the magnitude of the entries
     let mut scaled: Vec<(Vec<Vec<f64>>, &'static str)> = Vec::new();
@@ -782,7 +801,7 @@ fn small_clone(_e: &[f64], _n: usize, _x: &[f64]) -> Vec<Vec<f64>> {
 fn run_all(st: &mut Stats, mode: Mode) {
     let (mats, eig) = matrix_sets(mode);
     // split the eigen set: matrices with an exactly zero off-diagonal real part get their own class
-    let eig: Vec<(Vec<Vec<f64>>, &'static str)> = eig.into_iter().map(|(m, c)| if m.len() > 1 && is_diag_like(&m) { (m, "zero-offdiagonal") } else { (m, c) }).collect();
+    let eig: Vec<(Vec<Vec<f64>>, &'static str)> = eig.into_iter().map(|(m, c)| if c != "repeated-diagonal" && m.len() > 1 && is_diag_like(&m) { (m, "zero-offdiagonal") } else { (m, c) }).collect();
     st.count("matrices", mats.len() as u64);
     st.count("symmetric_matrices", eig.len() as u64);
     let mut ctx = Ctx { st };
@@ -796,8 +815,9 @@ fn run_all(st: &mut Stats, mode: Mode) {
         // the types whose == compares every part (derived), on the class where the Jacobi iteration
         // branches on a comparison: repaired by b3c74da, kept in the quick tier
         let tiny: Vec<(Vec<Vec<f64>>, &'static str)> = eig.iter().filter(|(_, c)| *c == "tiny-offdiagonal").cloned().collect();
-        crate_routines::<Dual3_64>(&mut ctx, Dims::NONE, &[], &tiny);
-        crate_routines::<HyperDual64>(&mut ctx, Dims::NONE, &[], &tiny);
+        let sing: Vec<(Vec<Vec<f64>>, &'static str)> = mats.iter().filter(|(_, c)| *c == "zero-column" || *c == "singular").cloned().collect();
+        crate_routines::<Dual3_64>(&mut ctx, Dims::NONE, &sing, &tiny);
+        crate_routines::<HyperDual64>(&mut ctx, Dims::NONE, &sing, &tiny);
     }
     if mode == Mode::Thorough {
         crate_routines::<Dual3_64>(&mut ctx, Dims::NONE, &mats, &eig);
